@@ -14,10 +14,9 @@ import os
 import random
 import re
 import shutil
-import sys
 import time
 
-from common import Driver, Violation, make_request, runner, mix64
+from common import Driver, Violation, make_request, runner, known_sigs
 import c01_scen
 import c01_gen
 
@@ -39,19 +38,6 @@ UBSAN_MEMORY = re.compile(r"misaligned address|null pointer of type|within null 
 IGNORED_KINDS = ("gcstat",)
 
 
-def _budget(driver, tier):
-    a = sys.argv
-    if "--budget" in a:
-        try:
-            return float(a[a.index("--budget") + 1])
-        except (ValueError, IndexError):
-            pass
-    for x in a:
-        if x.startswith("--budget="):
-            return float(x.split("=", 1)[1])
-    return driver.budgets.get(tier, 90)
-
-
 # A systemic breakage (say, a root that is no longer marked) fails in most scenarios and, since
 # the signature names scenario and faulting function, yields dozens of signatures, each of
 # which check_main minimises and replays.  At most MAX_SIGNATURES distinct signatures are
@@ -62,15 +48,26 @@ def _budget(driver, tier):
 MAX_SIGNATURES = 6
 
 
-def _sig_dir(ppid):
-    return os.path.join("/dev/shm" if os.path.isdir("/dev/shm") else "/tmp", "c01-sigs-%d" % ppid)
+def _sig_dir(pid):
+    """scratch directory of the check invocation whose parent process is `pid` (the start time
+    of the process is part of the name: pids are reused)"""
+    try:
+        with open("/proc/%d/stat" % pid) as f:
+            start = f.read().rsplit(")", 1)[1].split()[19]
+    except (OSError, IndexError):
+        start = "0"
+    return os.path.join("/dev/shm" if os.path.isdir("/dev/shm") else "/tmp", "c01-sigs-%d-%s" % (pid, start))
 
 
 def _cap_signatures(violations):
     d = _sig_dir(os.getppid())
     os.makedirs(d, exist_ok=True)
     kept, dropped = [], 0
+    known = known_sigs("C01")
     for sig, detail in violations:
+        if sig in known:
+            kept.append((sig, detail))
+            continue
         f = os.path.join(d, hashlib.sha256(sig.encode()).hexdigest()[:24])
         if os.path.exists(f):
             kept.append((sig, detail))
@@ -195,21 +192,10 @@ class C01(Driver):
         scheds = [list(s) for s in ALL_SCHEDULES if s != ["plain", "every"] or r.random() < 0.34]
         return {"property": "C01", "knobs": knobs, "units": units, "burst": burst, "schedules": scheds}
 
-    # ---- budget ----
-    # common.check_main stops *feeding* seeds at the deadline, but the pool's feeder thread has
-    # by then queued as many seeds as fit into the task pipe (~1800), which is nothing for a
-    # driver whose runs take milliseconds and ten minutes for this one (a plan = 8 simulated
-    # runs).  Seeds that reach a worker after the deadline are therefore not explored; they
-    # are reported with outcome "not-run-after-budget" and count for nothing.
     def __init__(self):
-        # in a pool worker this is the start of the exploration (the pool is created after the builds)
-        self._t0 = time.time()
+        self._t0 = time.time()      # in a pool worker: start of the exploration
 
     def run_seed(self, seed, tier):
-        if time.time() > self._t0 + _budget(self, tier) and not os.environ.get("C01_NO_DEADLINE"):
-            return {"seed": seed, "cov": "skipped", "nontrivial": False, "outcome": "not-run-after-budget",
-                    "faults": {}, "probes": {}, "sim_ns": 0, "sw": "", "hist": "skipped", "violations": [],
-                    "wall_us": 0, "extra": None}
         out = Driver.run_seed(self, seed, tier)
         if out["violations"]:
             out["violations"], dropped = _cap_signatures(out["violations"])
